@@ -302,10 +302,25 @@ def run_case(ctx, i, rng):
                         b'</SIMPLEEXPRSP></MESSAGE></CIM>')
             return xmlserver.error_response(op, 1, 'vf facade failure')
 
+    replayed = None
+    if ctx.replay:
+        # the facade's repository carries state from earlier cases of the
+        # worker: a replay gives the recorded answers
+        rd = (getattr(ctx, 'replay_rec', None) or {}).get('detail') or {}
+        rd = rd.get('case', rd) if isinstance(rd, dict) else {}
+        replayed = rd.get('answers')
+
     def first_handler(request):
         n = state['n']
         state['n'] += 1
         ans = None
+        if replayed is not None and n < len(replayed) and \
+                replayed[n] is not None:
+            r = replayed[n]
+            ans = transport.Scripted(body=base64.b64decode(r['body_b64']),
+                                     status=r['status'], headers=r['headers'])
+            recorded.append(ans)
+            return ans
         if n != target and rclass != 'valid':
             ans = transport.Scripted(body=valid_answer(request))
         elif rclass == 'valid':
@@ -375,6 +390,13 @@ def run_case(ctx, i, rng):
     desc = ops.describe(op, args, kw, 400)
     detail = {'call': desc, 'response_class': rclass, 'config': cfg,
               'bare_outcome': short(repr(out0), 400)}
+    if sum(len(a.body or b'') for a in recorded) < 400000:
+        detail['answers'] = [
+            None if a.exc is not None or a.body is None else
+            {'body_b64': base64.b64encode(
+                a.body if isinstance(a.body, bytes)
+                else a.body.encode('utf-8')).decode('ascii'),
+             'status': a.status, 'headers': a.headers} for a in recorded]
     if recorded and recorded[min(target, len(recorded) - 1)].body is not None:
         b = recorded[min(target, len(recorded) - 1)].body
         detail['response'] = short(b.decode('utf-8', 'replace')
